@@ -1,0 +1,15 @@
+//go:build !verif
+
+package engine
+
+import "context"
+
+// Verification hooks (see verif_on.go). Without the build tag "verif" they are no-ops.
+
+func verifOnCall(*VM, Atom, []Term, *Env) {}
+
+func verifOnPoll(context.Context) {}
+
+func verifOnChild(context.Context) {}
+
+func verifOnIntern(string, Atom, int) {}
